@@ -117,19 +117,23 @@ class DBase:
     """_yatiml_defaults on a base class shared by two unrelated classes."""
     _yatiml_defaults = {'mode': 'x'}    # type: Dict[str, Any]
 
-    @classmethod
-    def _yatiml_sweeten(cls, node: yatiml.Node) -> None:
-        node.remove_attributes_with_default_values(cls)
-
 
 class Timeout(DBase):
     def __init__(self, name: str, limit: int = 3, mode: str = 'm') -> None:
         self.name, self.limit, self.mode = name, limit, mode
 
+    @classmethod
+    def _yatiml_sweeten(cls, node: yatiml.Node) -> None:
+        node.remove_attributes_with_default_values(cls)
+
 
 class Retry(DBase):
     def __init__(self, name: str, limit: int = 30, mode: str = 'm') -> None:
         self.name, self.limit, self.mode = name, limit, mode
+
+    @classmethod
+    def _yatiml_sweeten(cls, node: yatiml.Node) -> None:
+        node.remove_attributes_with_default_values(cls)
 
 
 PD, PS = _mk_P()
@@ -192,9 +196,22 @@ def _battery(F):
     return out
 
 
-LONG_LIVED = _functions()
-BASELINE = _battery(_functions())       # what fresh functions give
-assert _battery(LONG_LIVED) == BASELINE
+def _user_sig():
+    return [sorted((k, _table_sig(v) if isinstance(
+        v, (dict, list, set, str, int, float, bool, type(None))) else '')
+        for k, v in c.__dict__.items() if k != '__slotnames__')
+        for c in (PD, PS, QD, QS, DBase, Timeout, Retry)]
+
+
+def _yatiml_base_sig():
+    return [_class_sig(c) for c in (yatiml.loader.Loader,
+                                    yatiml.dumper.Dumper)] + [
+        _table_sig(yatiml.util.scalar_type_to_tag)]
+
+
+# the user's classes and yatiml's base classes BEFORE any function is made
+PRISTINE_USER = None
+PRISTINE_YATIML = None
 
 
 # ------------------------------------------------------------- snapshots
@@ -243,17 +260,20 @@ def _tracked():
     return cs
 
 
+PRISTINE_USER = _user_sig()
+PRISTINE_YATIML = _yatiml_base_sig()
+LONG_LIVED = _functions()
+BASELINE = _battery(_functions())       # what fresh functions give
+assert _battery(LONG_LIVED) == BASELINE
+
+
 def snapshot():
     snap = {'classes': [_class_sig(c) for c in _tracked()],
             'scalar_type_to_tag': _table_sig(
                 yatiml.util.scalar_type_to_tag),
             # __slotnames__ is copyreg's cache on the class (written by
             # copy/pickle machinery, e.g. the engine's own deep copies)
-            'user': [sorted((k, _table_sig(v) if isinstance(
-                v, (dict, list, set, str, int, float, bool, type(None)))
-                else '') for k, v in c.__dict__.items()
-                if k != '__slotnames__')
-                for c in (PD, PS, QD, QS, DBase, Timeout, Retry)]}
+            'user': _user_sig()}
     return snap
 
 
@@ -314,6 +334,16 @@ def _history(n, o1, o2, o3, o4):
                      before=str(before)[:400], after=str(after)[:400])
             return False
     got = _battery(LONG_LIVED)
+    pristine = (got[-1] == ('pyyaml', True, True)
+                and _user_sig() == PRISTINE_USER
+                and _yatiml_base_sig() == PRISTINE_YATIML)
+    if not pristine:
+        if not SYMBOLIC:
+            note(history=ops, pyyaml_as_before_first_use=got[-1],
+                 user_classes_unchanged=_user_sig() == PRISTINE_USER,
+                 yatiml_base_classes_unchanged=(
+                     _yatiml_base_sig() == PRISTINE_YATIML))
+        return False
     if not SYMBOLIC:
         bad = [(i, g, w) for i, (g, w) in enumerate(zip(got, BASELINE))
                if g != w]
